@@ -3,37 +3,42 @@
 package encoding
 
 import (
-	"io"
-
-	"github.com/klauspost/compress/zstd"
 	"github.com/openGemini/openGemini/lib/util"
 	"github.com/openGemini/openGemini/lib/verifrt"
 )
 
-//verif:stub github.com/klauspost/compress/zstd.NewWriter = verifZstdNewWriter
-//verif:stub github.com/klauspost/compress/zstd.NewReader = verifZstdNewReader
-//verif:stub (*github.com/klauspost/compress/zstd.Encoder).EncodeAll = verifZstdEncodeAll
-//verif:stub (*github.com/klauspost/compress/zstd.Decoder).DecodeAll = verifZstdDecodeAll
-
-func verifZstdNewWriter(w io.Writer, opts ...zstd.EOption) (*zstd.Encoder, error) {
-	return &zstd.Encoder{}, nil
-}
-func verifZstdNewReader(r io.Reader, opts ...zstd.DOption) (*zstd.Decoder, error) {
-	return &zstd.Decoder{}, nil
-}
-func verifZstdEncodeAll(e *zstd.Encoder, src, dst []byte) []byte { return append(dst, src...) }
-func verifZstdDecodeAll(d *zstd.Decoder, input, dst []byte) ([]byte, error) {
-	return append(dst, input...), nil
+// verifStaleBuf models the destination the column readers pass: empty (col.Init() truncates it), but
+// possibly a re-used allocation of `stale` bytes that still holds old data.
+func verifStaleBuf(stale int) []byte {
+	if stale == 0 {
+		return nil
+	}
+	return verifrt.Bytes("stale", stale)[:0]
 }
 
-func verifIntBlock(ctx *CoderContext, n int, tag string) {
+// verifIntBlock: n arbitrary int64 through the real integer block codec, decoded into an empty
+// destination with `stale` bytes of re-used capacity.
+func verifIntBlock(ctx *CoderContext, n int, stale int) {
 	in := make([]int64, n)
 	for i := range in {
 		in[i] = verifrt.Int64("v")
 	}
+	verifShrink = verifrt.Bool("shrink")
 	out, err := EncodeIntegerBlock(util.Int64Slice2byte(in), nil, ctx)
 	verifrt.Assert(err == nil, "encode failed")
-	var buf []byte
+	if len(out) > 0 {
+		switch out[0] >> 4 {
+		case intUncompressed:
+			verifrt.Reach("mode:raw")
+		case intCompressedConstDelta:
+			verifrt.Reach("mode:constdelta")
+		case intCompressedSimple8b:
+			verifrt.Reach("mode:simple8b")
+		case intCompressZSTD:
+			verifrt.Reach("mode:zstd")
+		}
+	}
+	buf := verifStaleBuf(stale)
 	back, err := DecodeIntegerBlock(out, &buf, ctx)
 	verifrt.Assert(err == nil, "decode failed")
 	verifrt.Assert(len(back) == n, "decoded length differs")
@@ -44,8 +49,17 @@ func verifIntBlock(ctx *CoderContext, n int, tag string) {
 
 // VerifC07Int: one block of n int64 through the pooled integer coder.
 func VerifC07Int() {
-	n := verifrt.Choose("n", 4) + 1
+	n := verifrt.Choose("n", 4+2*verifrt.Tier()) + 1
 	ctx := NewCoderContext()
-	verifIntBlock(ctx, n, "a")
+	verifIntBlock(ctx, n, 0)
+	verifrt.Reach("end")
+}
+
+// VerifC07IntTwoBlocks: two blocks through the same pooled coder (its scratch state must not leak
+// from one block into the next), the second decoded into a re-used buffer that is too small (12 bytes) or large enough (40 bytes).
+func VerifC07IntTwoBlocks() {
+	ctx := NewCoderContext()
+	verifIntBlock(ctx, 3+verifrt.Choose("n1", 1+verifrt.Tier()), 0)
+	verifIntBlock(ctx, 3-2*verifrt.Choose("n2", 1+verifrt.Tier()), 12+28*verifrt.Choose("stale", 1+verifrt.Tier()))
 	verifrt.Reach("end")
 }
